@@ -964,6 +964,19 @@ def eval_C12(item):
                     m = ask_kv('wrap n=%d xs=%s' % (shape[ax], ','.join(str(int(x)) for x in idx[ax])))
                     idx[ax] = np.array([float(frac(x)) for x in m['wrapped'].split(',')])
             stat = cls(ScalarStatistic(s.values(subtree=True), tuple(idx)), md)
+            # the statistic classes also accept the structure itself: same numbers as for its pixels with substructures
+            if item['mode'] == 'plain':
+                try:
+                    direct = cls(s, md)
+                    for f in fields:
+                        a_, b_ = getattr(direct, f), getattr(stat, f)
+                        av, bv = float(getattr(a_, 'value', a_)), float(getattr(b_, 'value', b_))
+                        if not close(av, bv, abs(bv) + 10, 1e-9):
+                            res['pred'].append('%s(structure %d).%s = %r, statistic of its pixels (with substructures) %r'
+                                               % (cls.__name__, sid, f, av, bv))
+                            break
+                except Exception as e:  # noqa
+                    res['pred'].append('%s(structure %d) raised %s: %s' % (cls.__name__, sid, type(e).__name__, str(e)[:60]))
             if 'area_exact' in fields:
                 # independently of the statistic classes: the number of distinct sky pixels of the structure
                 sky_axes = [0, 1] if nd == 2 else [a_ for a_ in range(3) if a_ != 0]     # default vaxis = 0
